@@ -672,6 +672,246 @@ def sweep_pdf():
     return None
 
 
+# ---- token coverage: every piece of body text is in the unit of its element, and in no other ---------------------
+def token_coverage(obs, want, what):
+    """obs: [(unit number, unit text)]; want: {token: unit number it belongs to}.  -> description of the first problem or None"""
+    by = {n: t for n, t in obs}
+    for tok, k in want.items():
+        holders = [n for n, t in obs if tok in t]
+        if holders != [k]:
+            return f"{what} {tok!r} belongs to unit {k} but is found in units {holders}"
+        if by[k].count(tok) != 1:
+            return f"{what} {tok!r} occurs {by[k].count(tok)} times in unit {k}"
+    return None
+
+
+ODP_STYLES = {"title": "Title", "title2": "TitleText", "body": "BodyText", "outline": "P3", "none": None}
+
+
+def odp_rich_doc(slides):
+    """slides: [[(style key, text), ...]]: every paragraph in a text box of its own frame, frames top to bottom"""
+    ns = ('xmlns:office="urn:oasis:names:tc:opendocument:xmlns:office:1.0" xmlns:draw="urn:oasis:names:tc:opendocument:xmlns:drawing:1.0" '
+          'xmlns:text="urn:oasis:names:tc:opendocument:xmlns:text:1.0" xmlns:presentation="urn:oasis:names:tc:opendocument:xmlns:presentation:1.0" '
+          'xmlns:svg="urn:oasis:names:tc:opendocument:xmlns:svg-compatible:1.0" xmlns:xlink="http://www.w3.org/1999/xlink"')
+    pages = ""
+    for i, paras in enumerate(slides):
+        frames = ""
+        for j, (style, text) in enumerate(paras):
+            st = f' text:style-name="{ODP_STYLES[style]}"' if ODP_STYLES[style] else ""
+            frames += f'<draw:frame svg:x="1cm" svg:y="{j + 1}cm"><draw:text-box><text:p{st}>{text}</text:p></draw:text-box></draw:frame>'
+        pages += f'<draw:page draw:name="s{9 - i}">{frames}</draw:page>'
+    buf = io.BytesIO()
+    with zipfile.ZipFile(buf, "w") as z:
+        z.writestr("mimetype", "application/vnd.oasis.opendocument.presentation")
+        z.writestr("content.xml", f'<?xml version="1.0"?><office:document-content {ns}><office:body><office:presentation>{pages}'
+                                  '</office:presentation></office:body></office:document-content>')
+        z.writestr("meta.xml", f'<?xml version="1.0"?><office:document-meta {ns}><office:meta/></office:document-meta>')
+        z.writestr("META-INF/manifest.xml", '<?xml version="1.0"?><manifest:manifest xmlns:manifest="urn:oasis:names:tc:opendocument:xmlns:manifest:1.0"/>')
+    return buf.getvalue()
+
+
+def check_odp_rich(slide_styles):
+    from sharepoint2text.parsing.extractors.open_office.odp_extractor import read_odp
+    slides = [[(st, f"tok{i}x{j}") for j, st in enumerate(styles)] for i, styles in enumerate(slide_styles)]
+    c = next(read_odp(io.BytesIO(odp_rich_doc(slides))))
+    obs = observe(c)
+    want = {t: i + 1 for i, ps in enumerate(slides) for (_s, t) in ps}
+    why = None if [n for n, _t in obs] == list(range(1, len(slides) + 1)) else f"unit numbers {[n for n, _t in obs]}"
+    why = why or token_coverage(obs, want, "paragraph")
+    if why is None and c.get_full_text() != spec_fulltext(obs):
+        why = "full text differs from the joined unit texts"
+    if why:
+        return {"target": "odp_extractor.py::read_odp", "inputs": {"check": "odp_rich", "paragraph_styles_per_slide": slide_styles},
+                "expected": "one unit per slide; every paragraph text exactly once, in the unit of its slide", "observed": f"{why}; units={obs!r}", "check": "odp_rich"}
+    return None
+
+
+def sweep_odp_rich():
+    keys = list(ODP_STYLES)
+    for styles in itertools.chain(itertools.product(keys, repeat=1), itertools.product(keys, repeat=2), itertools.product(["title", "body", "none"], repeat=3)):
+        for layout in ([list(styles)], [["body"], list(styles)], [list(styles), list(styles)]):
+            r = check_odp_rich(layout)
+            if r:
+                return r
+    return None
+
+
+PPTX_PH = {"title": '<p:nvPr><p:ph type="title"/></p:nvPr>', "ctrTitle": '<p:nvPr><p:ph type="ctrTitle"/></p:nvPr>', "body": '<p:nvPr><p:ph type="body" idx="1"/></p:nvPr>',
+           "subTitle": '<p:nvPr><p:ph type="subTitle" idx="1"/></p:nvPr>', "textbox": '<p:nvPr/>'}
+
+
+def pptx_rich_doc(slides):
+    buf = io.BytesIO()
+    with zipfile.ZipFile(buf, "w") as z:
+        z.writestr("[Content_Types].xml", '<?xml version="1.0"?><Types xmlns="http://schemas.openxmlformats.org/package/2006/content-types"/>')
+        n = len(slides)
+        ids = "".join(f'<p:sldId id="{300 - i}" r:id="rId{i + 1}"/>' for i in range(n))
+        z.writestr("ppt/presentation.xml",
+                   '<?xml version="1.0"?><p:presentation xmlns:p="http://schemas.openxmlformats.org/presentationml/2006/main" '
+                   'xmlns:r="http://schemas.openxmlformats.org/officeDocument/2006/relationships"><p:sldIdLst>' + ids + '</p:sldIdLst></p:presentation>')
+        rels = "".join(f'<Relationship Id="rId{i + 1}" Type="http://schemas.openxmlformats.org/officeDocument/2006/relationships/slide" '
+                       f'Target="slides/slide{n - i}.xml"/>' for i in range(n))
+        z.writestr("ppt/_rels/presentation.xml.rels",
+                   '<?xml version="1.0"?><Relationships xmlns="http://schemas.openxmlformats.org/package/2006/relationships">' + rels + '</Relationships>')
+        for i, shapes in enumerate(slides):
+            sp = ""
+            for j, (kind, text) in enumerate(shapes):
+                sp += (f'<p:sp><p:nvSpPr><p:cNvPr id="{j + 2}" name="s{j}"/><p:cNvSpPr/>{PPTX_PH[kind]}</p:nvSpPr>'
+                       f'<p:spPr><a:xfrm><a:off x="100" y="{(j + 1) * 1000}"/><a:ext cx="10" cy="10"/></a:xfrm></p:spPr>'
+                       f'<p:txBody><a:bodyPr/><a:p><a:r><a:t>{text}</a:t></a:r></a:p></p:txBody></p:sp>')
+            z.writestr(f"ppt/slides/slide{n - i}.xml",
+                       '<?xml version="1.0"?><p:sld xmlns:p="http://schemas.openxmlformats.org/presentationml/2006/main" '
+                       'xmlns:a="http://schemas.openxmlformats.org/drawingml/2006/main"><p:cSld><p:spTree>'
+                       '<p:nvGrpSpPr><p:cNvPr id="1" name=""/><p:cNvGrpSpPr/><p:nvPr/></p:nvGrpSpPr><p:grpSpPr/>' + sp +
+                       '</p:spTree></p:cSld></p:sld>')
+    return buf.getvalue()
+
+
+def check_pptx_rich(slide_kinds):
+    from sharepoint2text.parsing.extractors.ms_modern.pptx_extractor import read_pptx
+    slides = [[(k, f"tok{i}x{j}") for j, k in enumerate(kinds)] for i, kinds in enumerate(slide_kinds)]
+    c = next(read_pptx(io.BytesIO(pptx_rich_doc(slides))))
+    obs = observe(c)
+    want = {t: i + 1 for i, ps in enumerate(slides) for (_k, t) in ps}
+    why = None if [n for n, _t in obs] == list(range(1, len(slides) + 1)) else f"unit numbers {[n for n, _t in obs]}"
+    why = why or token_coverage(obs, want, "shape text")
+    if why is None and c.get_full_text() != spec_fulltext(obs):
+        why = "full text differs from the joined unit texts"
+    if why:
+        return {"target": "pptx_extractor.py::read_pptx", "inputs": {"check": "pptx_rich", "shape_kinds_per_slide": slide_kinds},
+                "expected": "one unit per slide; every shape text exactly once, in the unit of its slide", "observed": f"{why}; units={obs!r}", "check": "pptx_rich"}
+    return None
+
+
+def sweep_pptx_rich():
+    keys = list(PPTX_PH)
+    for kinds in itertools.chain(itertools.product(keys, repeat=1), itertools.product(keys, repeat=2), itertools.product(["title", "body", "textbox"], repeat=3)):
+        for layout in ([list(kinds)], [["body"], list(kinds)]):
+            r = check_pptx_rich(layout)
+            if r:
+                return r
+    return None
+
+
+def eml_bytes(parts, subtype="mixed"):
+    from email.mime.multipart import MIMEMultipart
+    from email.mime.text import MIMEText
+    if len(parts) == 1 and subtype is None:
+        m = MIMEText(parts[0][1], parts[0][0])
+    else:
+        m = MIMEMultipart(subtype or "mixed")
+        for st, t in parts:
+            m.attach(MIMEText(t, st))
+    m["From"], m["To"], m["Subject"] = "a@x.org", "b@x.org", "subj"
+    m["Date"], m["Message-ID"] = "Mon, 1 Jan 2024 00:00:00 +0000", "<1@x>"
+    return m.as_bytes()
+
+
+def check_mail_parts(fmt, kinds, subtype="mixed"):
+    """kinds: sequence of "plain" / "html" inline text parts.  Statement: the unit of a message holds its body text -- every inline
+    part of the body kind that is shown (plain if there is one, else html)."""
+    parts = [(k, (f"tok{j}" if k == "plain" else f"<p>tok{j}</p>")) for j, k in enumerate(kinds)]
+    raw = eml_bytes(parts, subtype)
+    if fmt == "eml":
+        from sharepoint2text.parsing.extractors.mail.eml_email_extractor import read_eml_format_mail as reader
+        data = raw
+    else:
+        from sharepoint2text.parsing.extractors.mail.mbox_email_extractor import read_mbox_format_mail as reader
+        data = b"From a@x.org Mon Jan  1 00:00:00 2024\n" + raw + b"\n\n"
+    res = list(reader(io.BytesIO(data)))
+    shown = "plain" if "plain" in kinds else "html"
+    want = {f"tok{j}": 1 for j, k in enumerate(kinds) if k == shown}
+    why = None
+    if len(res) != 1:
+        why = f"{len(res)} messages"
+    else:
+        obs = observe(res[0])
+        why = token_coverage(obs, want, f"text/{shown} part") if [n for n, _t in obs] == [1] else f"units {obs!r}"
+        if why is None and res[0].get_full_text() != spec_fulltext(obs):
+            why = "full text differs from the joined unit texts"
+    if why:
+        return {"target": f"{fmt}_email_extractor.py::read_{fmt}_format_mail", "inputs": {"check": "mail_parts", "format": fmt, "inline_parts": list(kinds), "subtype": subtype},
+                "expected": f"one unit numbered 1 holding every inline text/{shown} part exactly once", "observed": why, "check": "mail_parts"}
+    return None
+
+
+def sweep_mail_parts(fmt, exclude=()):
+    for subtype in ("mixed", "alternative"):
+        for n in (1, 2, 3):
+            for kinds in itertools.product(["plain", "html"], repeat=n):
+                feats = mail_features(kinds)
+                if set(feats) & set(exclude):
+                    continue
+                r = check_mail_parts(fmt, list(kinds), subtype)
+                if r:
+                    r["inputs"]["features"] = feats
+                    return r
+    return None
+
+
+def mail_features(kinds):
+    shown = "plain" if "plain" in kinds else "html"
+    return ["several-inline-parts-of-the-body-kind"] if list(kinds).count(shown) > 1 else []
+
+
+def pdf_text_doc(n_pages, unreadable=()):
+    """n pages with one text token each; pages listed in `unreadable` get a content stream pypdf cannot decode"""
+    from pypdf import PdfWriter
+    from pypdf.generic import DictionaryObject, NameObject, StreamObject
+    w = PdfWriter()
+    for i in range(n_pages):
+        p = w.add_blank_page(width=200, height=200)
+        s = StreamObject()
+        if i in unreadable:
+            s[NameObject("/Filter")] = NameObject("/ASCIIHexDecode")
+            s._data = b"ZZ not hex >"
+        else:
+            s._data = f"BT /F1 12 Tf 20 100 Td (tok{i}) Tj ET".encode()
+        p[NameObject("/Contents")] = w._add_object(s)
+        font = DictionaryObject({NameObject("/Type"): NameObject("/Font"), NameObject("/Subtype"): NameObject("/Type1"), NameObject("/BaseFont"): NameObject("/Helvetica")})
+        p[NameObject("/Resources")] = DictionaryObject({NameObject("/Font"): DictionaryObject({NameObject("/F1"): w._add_object(font)})})
+    buf = io.BytesIO()
+    w.write(buf)
+    return buf.getvalue()
+
+
+def check_pdf_text(n_pages, unreadable=()):
+    """A document is either refused as a whole or every page is a unit at its own position (a page that cannot be read must not
+    make the later pages move up)."""
+    from sharepoint2text.parsing.extractors.pdf.pdf_extractor import read_pdf
+    try:
+        c = next(read_pdf(io.BytesIO(pdf_text_doc(n_pages, tuple(unreadable)))))
+    except Exception as e:  # noqa  -- refusing the document is allowed (failure surface is C01's)
+        if unreadable:
+            return None
+        return {"target": "pdf_extractor.py::read_pdf", "inputs": {"check": "pdf_text", "pages": n_pages, "unreadable": list(unreadable)},
+                "expected": "a well-formed PDF is extracted", "observed": f"{type(e).__name__}: {e}"[:200], "check": "pdf_text"}
+    obs = observe(c)
+    want = {f"tok{i}": i + 1 for i in range(n_pages) if i not in unreadable}
+    why = None if [n for n, _t in obs] == list(range(1, n_pages + 1)) else f"{n_pages} pages but unit numbers {[n for n, _t in obs]}"
+    why = why or token_coverage(obs, want, "page text")
+    if why is None and c.get_full_text() != spec_fulltext(obs):
+        why = "full text differs from the joined unit texts"
+    if why:
+        return {"target": "pdf_extractor.py::read_pdf", "inputs": {"check": "pdf_text", "pages": n_pages, "unreadable": list(unreadable)},
+                "expected": "one unit per page, numbered by page position, each holding that page's text (or the document is refused)",
+                "observed": f"{why}; units={obs!r}", "check": "pdf_text"}
+    return None
+
+
+def sweep_pdf_text():
+    r = check_pdf_text(3, (1,))        # the telling case first: an unreadable page in the middle
+    if r:
+        return r
+    for n in (1, 2, 3):
+        for k in range(0, n + 1):
+            for bad in itertools.combinations(range(n), k):
+                r = check_pdf_text(n, bad)
+                if r:
+                    return r
+    return None
+
+
 def mbox_doc(bodies, pad="\n\n", eol="\n", header_only=()):
     """Mailbox: every message starts with a `From ` separator LINE (that is the format's definition of a message
     boundary); `pad` is what the writer puts after a body (a blank line, only the line end, nothing more), `eol` the
@@ -749,12 +989,19 @@ def sweeps_for(target):
         out.append(("rtf", sweep_rtf))
     if "pptx_extractor" in t:
         out.append(("pptx", sweep_pptx))
+        out.append(("pptx_rich", sweep_pptx_rich))
     if "odp_extractor" in t:
         out.append(("odp", sweep_odp))
+        out.append(("odp_rich", sweep_odp_rich))
     if "epub_extractor" in t:
         out.append(("epub", sweep_epub))
     if "pdf_extractor" in t:
         out.append(("pdf", sweep_pdf))
+        out.append(("pdf_text", sweep_pdf_text))
+    if "eml_email_extractor" in t or "EmailContent." in t:
+        out.append(("mail_parts:eml", lambda: sweep_mail_parts("eml")))
+    if "mbox_email_extractor" in t:
+        out.append(("mail_parts:mbox", lambda: sweep_mail_parts("mbox", exclude=EXCLUDE.get("mbox", ()))))
     if "xlsx_extractor" in t:
         out.append(("xlsx", lambda: sweep_sheets("xlsx")))
     if "ods_extractor" in t:
@@ -775,7 +1022,10 @@ def all_sweeps():
         out.append(("sections:" + cls, lambda cls=cls: sweep_sections(cls, exclude=_recorded(cls))))
     out += [("join", sweep_join), ("ppt_build", sweep_ppt_build), ("ppt_parse", sweep_ppt_parse), ("ppt_fixture", check_ppt_fixture),
             ("rtf", sweep_rtf), ("pptx", sweep_pptx), ("odp", sweep_odp), ("epub", sweep_epub), ("pdf", sweep_pdf), ("mbox", sweep_mbox),
-            ("xlsx", lambda: sweep_sheets("xlsx")), ("ods", lambda: sweep_sheets("ods"))]
+            ("xlsx", lambda: sweep_sheets("xlsx")), ("ods", lambda: sweep_sheets("ods")),
+            ("odp_rich", sweep_odp_rich), ("pptx_rich", sweep_pptx_rich), ("pdf_text", sweep_pdf_text), ("epub_rich", sweep_epub_rich),
+            ("ppt_tokens", sweep_ppt_tokens), ("flowing:txt", lambda: sweep_flowing("txt")), ("flowing:html", lambda: sweep_flowing("html")),
+            ("mail_parts:eml", lambda: sweep_mail_parts("eml")), ("mail_parts:mbox", lambda: sweep_mail_parts("mbox", exclude=_recorded("mbox")))]
     return out
 
 
@@ -791,14 +1041,145 @@ def _recorded(cls):
     return sorted({x for f in kf if f.get("property") == "C03" and f.get("class") == cls for x in f.get("exclusion", [])})
 
 
+def check_epub_rich(chapter_shapes):
+    """chapters given as lists of block kinds (h1 / p / li): every block text exactly once, in the unit of its chapter"""
+    from sharepoint2text.parsing.extractors.epub_extractor import read_epub
+    chapters = []
+    for i, kinds in enumerate(chapter_shapes):
+        body = ""
+        for j, k in enumerate(kinds):
+            t = f"tok{i}x{j}"
+            body += f"<ul><li>{t}</li></ul>" if k == "li" else f"<{k}>{t}</{k}>"
+        chapters.append(body)
+    buf = io.BytesIO()
+    with zipfile.ZipFile(buf, "w") as z:
+        z.writestr("mimetype", "application/epub+zip")
+        z.writestr("META-INF/container.xml", '<?xml version="1.0"?><container version="1.0" xmlns="urn:oasis:names:tc:opendocument:xmlns:container">'
+                                             '<rootfiles><rootfile full-path="OEBPS/content.opf" media-type="application/oebps-package+xml"/></rootfiles></container>')
+        items = "".join(f'<item id="c{i}" href="c{i}.xhtml" media-type="application/xhtml+xml"/>' for i in range(len(chapters)))
+        refs = "".join(f'<itemref idref="c{i}"/>' for i in range(len(chapters)))
+        z.writestr("OEBPS/content.opf", '<?xml version="1.0"?><package xmlns="http://www.idpf.org/2007/opf" version="3.0" unique-identifier="id">'
+                                        '<metadata xmlns:dc="http://purl.org/dc/elements/1.1/"><dc:title>T</dc:title><dc:identifier id="id">x</dc:identifier></metadata>'
+                                        f'<manifest>{items}</manifest><spine>{refs}</spine></package>')
+        for i, b in enumerate(chapters):
+            z.writestr(f"OEBPS/c{i}.xhtml", f'<?xml version="1.0"?><html xmlns="http://www.w3.org/1999/xhtml"><head><title>c{i}</title></head><body>{b}</body></html>')
+    c = next(read_epub(io.BytesIO(buf.getvalue())))
+    obs = observe(c)
+    want = {f"tok{i}x{j}": i + 1 for i, kinds in enumerate(chapter_shapes) for j in range(len(kinds))}
+    why = None if [n for n, _t in obs] == list(range(1, len(chapter_shapes) + 1)) else f"unit numbers {[n for n, _t in obs]}"
+    why = why or token_coverage(obs, want, "block")
+    if why is None and c.get_full_text() != spec_fulltext(obs):
+        why = "full text differs from the joined unit texts"
+    if why:
+        return {"target": "epub_extractor.py::read_epub", "inputs": {"check": "epub_rich", "blocks_per_chapter": chapter_shapes},
+                "expected": "one unit per chapter; every block text exactly once, in the unit of its chapter", "observed": f"{why}; units={obs!r}", "check": "epub_rich"}
+    return None
+
+
+def sweep_epub_rich():
+    for kinds in itertools.chain(itertools.product(["h1", "p", "li"], repeat=2), itertools.product(["h1", "p", "li"], repeat=3)):
+        for layout in ([list(kinds)], [["p"], list(kinds)]):
+            r = check_epub_rich(layout)
+            if r:
+                return r
+    return None
+
+
+def check_ppt_tokens(slide_counts, loose=0):
+    """legacy ppt record stream: slide k carries slide_counts[k] text atoms; every atom text exactly once in the unit of its slide"""
+    from sharepoint2text.parsing.extractors.ms_legacy import ppt_extractor as P
+    dt = _dt()
+    slides = [[f"tok{i}x{j}" for j in range(n)] for i, n in enumerate(slide_counts)]
+    data = ppt_stream(slides, [f"loose{j}" for j in range(loose)])
+    content = dt.PptContent()
+    P._parse_ppt_document(data, content)
+    obs = observe(content)
+    want = {t: i + 1 for i, ts in enumerate(slides) for t in ts}
+    why = token_coverage(obs, want, "text atom")
+    if why:
+        return {"target": "ppt_extractor.py::_parse_ppt_document", "inputs": {"check": "ppt_tokens", "text_atoms_per_slide": list(slide_counts), "loose": loose},
+                "expected": "every text atom of a slide exactly once, in the unit of that slide", "observed": f"{why}; units={obs!r}", "check": "ppt_tokens"}
+    return None
+
+
+def sweep_ppt_tokens():
+    for n in (1, 2, 3):
+        for counts in itertools.product([1, 2, 3], repeat=n):
+            r = check_ppt_tokens(list(counts))
+            if r:
+                return r
+    return None
+
+
+def check_flowing(fmt, paragraphs):
+    """plain text / html: one unit numbered 1 holding every paragraph exactly once"""
+    toks = [f"tok{j}" for j in range(paragraphs)]
+    if fmt == "txt":
+        from sharepoint2text.parsing.extractors.plain_extractor import read_plain_text as reader
+        data = ("\n\n".join(toks) + "\n").encode()
+    else:
+        from sharepoint2text.parsing.extractors.html_extractor import read_html as reader
+        data = ("<html><head><title>t</title></head><body>" + "".join(f"<p>{t}</p>" if j % 2 == 0 else f"<div>{t}</div>" for j, t in enumerate(toks)) + "</body></html>").encode()
+    c = next(reader(io.BytesIO(data)))
+    obs = observe(c)
+    why = token_coverage(obs, {t: 1 for t in toks}, "paragraph") if [n for n, _t in obs] == [1] else f"units {obs!r}"
+    if why is None and c.get_full_text() != spec_fulltext(obs):
+        why = "full text differs from the joined unit texts"
+    if why:
+        return {"target": f"{'plain' if fmt == 'txt' else 'html'}_extractor.py::read", "inputs": {"check": "flowing", "format": fmt, "paragraphs": paragraphs},
+                "expected": "one unit numbered 1 holding every paragraph exactly once", "observed": why, "check": "flowing"}
+    return None
+
+
+def sweep_flowing(fmt):
+    for n in (0, 1, 2, 3):
+        r = check_flowing(fmt, n)
+        if r:
+            return r
+    return None
+
+
+DOCUMENT_SCOPES = {
+    # format -> native sweeps over generated documents (read with the real extractor): numbering, order, token coverage, full text
+    "pdf": lambda: sweep_pdf() or sweep_pdf_text(),
+    "pptx": lambda: sweep_pptx() or sweep_pptx_rich(),
+    "odp": lambda: sweep_odp() or sweep_odp_rich(),
+    "epub": lambda: sweep_epub() or sweep_epub_rich(),
+    "txt": lambda: sweep_flowing("txt"),
+    "html": lambda: sweep_flowing("html"),
+    "rtf": lambda: sweep_rtf(),
+    "xlsx": lambda: sweep_sheets("xlsx"),
+    "ods": lambda: sweep_sheets("ods"),
+    "eml": lambda: sweep_mail_parts("eml", exclude=EXCLUDE.get("eml", ())),
+    "mbox": lambda: sweep_mbox() or sweep_mail_parts("mbox", exclude=EXCLUDE.get("mbox", ())),
+    "ppt": lambda: sweep_ppt_parse() or sweep_ppt_tokens() or check_ppt_fixture(),
+}
+
+
 def find(req):
     import logging
     logging.disable(logging.CRITICAL)
     EXCLUDE.clear()
     EXCLUDE.update(req.get("exclude_features") or {})
+    if req.get("scope") == "documents":
+        out = {}
+        for fmt, fn in DOCUMENT_SCOPES.items():
+            try:
+                out[fmt] = fn()
+            except Exception as e:  # noqa
+                import traceback
+                out[fmt] = {"error": traceback.format_exc()[-600:]}
+        return {"reproduced": any(v and "error" not in v for v in out.values()), "results": out}
+    if "[documents:" in (req.get("obligation") or ""):
+        fmt = req["obligation"].split("[documents:")[1].split("]")[0]
+        r = DOCUMENT_SCOPES[fmt]()
+        return dict(r or {}, reproduced=r is not None, found_by=f"native document scope `{fmt}`")
     if req.get("known_finding"):
         w = req.get("witness") or {}
-        r = check_sections(w["class"], w["paragraphs"])
+        if w.get("check") == "mail_parts":
+            r = check_mail_parts(w["format"], w["inline_parts"], w.get("subtype", "mixed"))
+        else:
+            r = check_sections(w["class"], w["paragraphs"])
         return dict(r or {}, reproduced=r is not None)
     target = (req.get("function") or "") + " " + (req.get("obligation") or "")
     sw = sweeps_for(target)
@@ -825,6 +1206,20 @@ def rerun(stored):
         r = check_single(inp["class"], inp["text"], inp.get("html", ""))
     elif chk == "join":
         r = check_join(inp["unit_texts"])
+    elif chk == "epub_rich":
+        r = check_epub_rich(inp["blocks_per_chapter"])
+    elif chk == "ppt_tokens":
+        r = check_ppt_tokens(inp["text_atoms_per_slide"], inp.get("loose", 0))
+    elif chk == "flowing":
+        r = check_flowing(inp["format"], inp["paragraphs"])
+    elif chk == "odp_rich":
+        r = check_odp_rich(inp["paragraph_styles_per_slide"])
+    elif chk == "pptx_rich":
+        r = check_pptx_rich(inp["shape_kinds_per_slide"])
+    elif chk == "mail_parts":
+        r = check_mail_parts(inp["format"], inp["inline_parts"], inp.get("subtype", "mixed"))
+    elif chk == "pdf_text":
+        r = check_pdf_text(inp["pages"], inp.get("unreadable", ()))
     elif chk == "sheets":
         r = check_sheets(inp["format"], inp["sheet_kinds"])
     elif chk == "sections":
